@@ -52,6 +52,7 @@ def run(prog, chk):
     _erase_rule(prog, chk)
     dirty_cleared_after_sweep(prog, chk, "C12.i")
     one_connection_per_disconnect(prog, chk, "C12.j")
+    wrapper_slot_keys_agree(prog, chk, "C12.k")
     if len(cb) < 6:
         raise AnalysisBroken("Callback.cpp: only %d functions" % len(cb))
 
@@ -523,3 +524,45 @@ def one_connection_per_disconnect(prog, chk, rid):
                     "after it %s the search goes on (lines %s) and treats further matching entries the same way, while the other side gives up "
                     "exactly one record: a pair connected twice loses both connections on one side and one on the other - the remaining "
                     "connection is never invoked again" % (what, f.path_lines(again)[:8]), f.path_lines(again), evals=2)
+
+
+def wrapper_slot_keys_agree(prog, chk, rid):
+    """connect<> stores the slot under a member-pointer value, disconnect<> looks it up by one: both wrapper families have to form that
+    value from the same type - the class that declares the slot.  Converted to the type of the object handed in, a slot of a
+    non-first base carries a this-adjustment the other side's key lacks: disconnect finds nothing and the slot stays connected."""
+    chk.rule(rid, "SIB/TYPE: for each instantiation pair Callback::connect<X,Y,V,W,..> / disconnect<X,Y,V,W,..> (W != Y included: a witness "
+                  "listener whose slot class is a non-first base) the slot argument handed to the non-template connect/disconnect is formed from "
+                  "the same member-pointer type", floor=2)
+    from .. import q as _q
+    def slot_type(f, callee):
+        for c in _q.calls(f):
+            if (f.nodes[c].get("callee") or "") == callee and f.nodes[c].get("csig") != f.sig:
+                args = _q.call_args(f, c)
+                if args:
+                    x = f.strip(args[-1])
+                    for y in [x] + list(f.desc(x)):
+                        t = f.nodes[y].get("t") or ""
+                        if "::*)" in t:
+                            return t, c
+        return None, None
+    fam = {}
+    for f in prog.functions.values():
+        if f.name in ("Callback::connect", "Callback::disconnect") and f.file.endswith("Callback.hpp") and f.blocks:
+            m = re.search(r"<(.*)>\(", f.sig)
+            key = m.group(1) if m else f.sig
+            fam.setdefault(key, {})[f.name.split("::")[-1]] = f
+    pairs = [(k, v) for k, v in sorted(fam.items()) if "connect" in v and "disconnect" in v]
+    if len(pairs) < 2 or not any(len(set(k.split(", ")[:4])) > 2 and k.split(", ")[1] != k.split(", ")[3] for k, _v in pairs):
+        raise AnalysisBroken("Callback::connect<>/disconnect<> wrapper pairs (with a listener whose slot class is a non-first base) are not instantiated")
+    for k, v in pairs:
+        tc, cc = slot_type(v["connect"], "Callback::connect")
+        td, cd = slot_type(v["disconnect"], "Callback::disconnect")
+        f = v["connect"]
+        if tc is None or td is None:
+            raise AnalysisBroken("Callback wrapper <%s>: the forwarding call was not found" % k[:60])
+        if tc == td:
+            chk.ok(rid, f, "connect<%s> and disconnect<> key the slot by `%s`" % (k[:40], tc[:40]), f.where(cc), "member-pointer type of the forwarded slot", evals=2)
+        else:
+            chk.bad(rid, f, "wrapper-slot-key-types-differ", f.where(cc),
+                    "connect<> forwards the slot as `%s`, disconnect<> looks it up as `%s`: for a slot declared in a non-first base the two "
+                    "member-pointer values differ (this-adjustment), disconnect removes nothing and the slot keeps being called" % (tc[:50], td[:50]), evals=2)
